@@ -26,8 +26,8 @@ func vGenCut(server bool) (wire []byte, spans []vFrameSpan) {
 		wire = append(wire, b...)
 	}
 	n := vChoose("plen", 3) // 0..2 payload bytes per frame (empty frames and fragments included)
-	switch vChoose("shape", 4+3*vTier()) {
-	case 4: // thorough: three fragments
+	switch vChoose("shape", 5+2*vTier()) {
+	case 6: // thorough: three fragments
 		add(false, byte(1+vChoose("op", 2)), n, true, false, false, false)
 		add(false, 0, n, false, false, false, false)
 		add(true, 0, n, false, true, false, false)
@@ -36,7 +36,7 @@ func vGenCut(server bool) (wire []byte, spans []vFrameSpan) {
 		add(true, 10, n, false, false, true, true)
 		add(true, 9, n, false, false, true, true)
 		add(true, 0, n, false, true, false, false)
-	case 6: // thorough: top-level pong (nothing to answer)
+	case 4: // top-level pong (nothing to answer)
 		add(true, 10, n, true, true, true, false)
 	case 0: // single-frame message
 		add(true, byte(1+vChoose("op", 2)), n, true, true, false, false)
